@@ -41,7 +41,21 @@ PROPS = {
         'units': ['unitA'],
         'assumptions': ['A-arena', 'A-std', 'A-extract', 'A-verus'],
         'rules': 'R1 R2 R6; panic mode: absent',
-        'claimed': [],
-        'unclaimed': [],
+        'claimed': [
+            'TombstoneArena (alloc, alloc_with_id, delete, get, get_mut, contains, len, next_id, index, index_mut, iter filter predicate, iter_mut constructor): whole-view contracts with frame over (arena id, items, tombstones); invariant tombstones are ids of this arena',
+            'ArenaSet (new, insert, remove, next_id, index, index_mut): de-duplication invariant both ways (map entry <-> live item with that key); remove erases the key before on_delete mutates the item',
+            'Type::eq and Type::hash read the same projection (params, results, is_for_function_entry): Eq/Hash coherence proved, not assumed',
+            'ModuleTypes (get, delete, add): adding a present type returns the existing id and changes nothing; otherwise a fresh id; every other id keeps its item',
+            'history statement (never reused, absent after delete): by induction over public operations, each of which preserves the invariant and states its frame',
+        ],
+        'unclaimed': [
+            'IterMut::next is not under contract (Verus 0.2026.09.13 loses final(self) at a return inside a loop whose match has an if-guard): bounded stand-in only',
+            'iteration order of iter()/par_iter() relies on A-iter (filter adapter over id_arena ascending order); only the predicate is verified',
+        ],
+        'standins': [
+            {'fn': 'IterMut::next (src/tombstone_arena.rs) and the collections built on the arenas', 'argv': ['arena', '5'],
+             'bound': 'all 8^5 histories of add/delete/name on ModuleTypes and all 5^7 histories of add/delete on globals+exports, every observation (get, iter, iter_mut, find) checked after every step against a reference model',
+             'why': 'Verus limitation (if-guard inside loop with return)'},
+        ],
     },
 }
